@@ -1,6 +1,8 @@
 package govc
 
 import (
+	"sort"
+	"strconv"
 	"fmt"
 	"go/token"
 	"go/types"
@@ -77,6 +79,24 @@ func (e *SpecEnv) lookup(name string) (Value, bool) {
 }
 
 func (e *SpecEnv) localByName(name string) (Value, bool) {
+	// name#n selects the n-th declaration (source order) of a shadowed local
+	if i := strings.Index(name, "#"); i > 0 {
+		base := name[:i]
+		n, err := strconv.Atoi(name[i+1:])
+		if err == nil {
+			var cands []*ssa.Alloc
+			for a := range e.f.Cells {
+				if a.Comment == base {
+					cands = append(cands, a)
+				}
+			}
+			sort.Slice(cands, func(x, y int) bool { return cands[x].Pos() < cands[y].Pos() })
+			if n >= 1 && n <= len(cands) {
+				return Value{T: e.f.Cells[cands[n-1]], Ty: cands[n-1].Type().(*types.Pointer).Elem()}, true
+			}
+		}
+		return Value{}, false
+	}
 	var best *ssa.Alloc
 	for a := range e.f.Cells {
 		if a.Comment == name {
